@@ -11,6 +11,17 @@
                 host functions on chain / fork / Y / comb dof trees and on a model mixing Cholesky blocks with an LDL region
                 (qLD[:, qLD_block_total:]), M = U^T D U with U unit lower triangular on the tree's sparsity pattern and D > 0
                 arbitrary: same claims.
+ tile/<model>   the tile-Cholesky path (_tile_cholesky_factorize_block, _tile_cholesky_solve_block, _tile_cholesky_factorize_solve_block:
+                trees of 7..64 dofs and small trees that are neither chains nor diagonal) at the DATAFLOW level, through the same
+                host functions (wp.launch_tiled interpreted block by block, linalg_c21.TileInterp on top of wsym.tiles), on models
+                that interleave tile blocks of one or two sizes with scalar / compact blocks ([fork3, chain2, fork3], [7, 3, 7],
+                [8, 2, 7, 8], ...; nworld 2): with tile_cholesky_inplace / tile_cholesky_solve as uninterpreted functions of
+                the upper triangle of their tile arguments, x at a tile block's dofs = CHOLSOLVE(CHOL(block of M, dense from CSR,
+                absent pairs 0), b at the block's dofs) - i.e. the factor tile the solve kernel loads is cell by cell what the
+                factor kernel stored for that block, the gathered matrix tile is that block of M, rhs / x are gathered /
+                scattered at its dofs - and with the contract CHOLSOLVE(CHOL(A), y) solves A x = y: M x = b; scalar blocks
+                of the same models are decided as in chol/*.  tile/contracts validates the three built-in contracts
+                numerically against the real Warp built-ins.
  mulm/<model>   support.mul_m (sparse gather kernel, with / without the per-world skip mask, with an explicit M argument, and the
                 dense 3-D variant): res = M vec under MuJoCo's CSR map, skipped worlds keep res.
 Proof device (linalg_c21.Closer): every float a thread stores is named; a Laurent-polynomial normaliser PROPOSES a closed form
@@ -441,6 +452,9 @@ def unit_solve(fam, name, scratch=False, leftinv=False):
     for t, cl in a["chain"].subs + c["chain"].subs:
       both.add(t, cl)
     for w in range(nworld):
+      if fam == "tile" and ctx.violations:
+        ctx.notes.append("same/*: skipped after a reproduced violation")
+        break
       for i in range(nv):
         both.prove(ctx, f"same/w{w}/x[{i}]", cmp("==", flat(a["x"], w, i), flat(c["x"], w, i)), replay=rp(f"same.x{i}"), desc=f"{name}: factor_m;solve_m and factor_solve_i return different x[{i}]")
         both.prove(ctx, f"same/w{w}/qLDiagInv[{i}]", cmp("==", flat(a["Dinv"], w, i), flat(c["Dinv"], w, i)), replay=rp(f"same.D{i}"), desc=f"{name}: factor_m and factor_solve_i leave different qLDiagInv[{i}]")
